@@ -12,6 +12,7 @@ declare -A props=(
   [ack_arithmetic]="C08 C20"
   [packetat_checksum_restructured]="C02 C07 C03"
   [baudrate_cases_reordered]="C20 C15"
+  [fixedpoint_restructured]="C05 C04"
   [client_command_renamed]="C08 C14 C16"
   [latlon_decoder_renamed]="C04 C12 C03"
 )
